@@ -7,7 +7,7 @@ pv=/tmp/reseed_verif_$$
 mkdir -p $pv
 rsync -a --delete --exclude .git --exclude build --exclude 'coq/cases' /verif/ $pv/
 for id in "$@"; do
-  pid=${id%%-*}; wt=/tmp/wtr_${id}_$$
+  pid=${CHECKPID:-${id%%-*}}; wt=/tmp/wtr_${id}_$$
   git -C /repo worktree remove --force $wt >/dev/null 2>&1
   git -C /repo worktree add --detach $wt HEAD -q >/dev/null 2>&1
   if ! git -C $wt apply /verif/seeded/$id/patch.diff 2>/dev/null; then
